@@ -1789,6 +1789,65 @@ func rulePrepareFresh(p *Program, r *Reporter) {
 	if a == nil {
 		return
 	}
+	// every successful Prepare translates the script and builds a machine from
+	// the result: there is no path to a nil error that does not pass the
+	// compiler and the machine's constructor (a Prepare that answers from memory
+	// — "same script text as last time" — ignores what else decides the
+	// program: the flags, the functions registered since)
+	{
+		must := map[string]*ssa.Function{"the compiler": a.compile, "the machine's constructor": a.vmNew}
+		var names []string
+		for n := range must {
+			names = append(names, n)
+		}
+		sort.Strings(names)
+		for _, what := range names {
+			target := must[what]
+			stop := map[*ssa.BasicBlock]bool{}
+			for _, c := range callsTo(a.prepare, target) {
+				stop[c.Block()] = true
+			}
+			// the call may sit in a part of Prepare that has a function of its own
+			for _, b := range a.prepare.Blocks {
+				for _, ins := range b.Instrs {
+					if cc := callOf(ins); cc != nil && cc.StaticCallee() != nil && cc.StaticCallee() != target && fnPkg(cc.StaticCallee()) != nil && fnPkg(cc.StaticCallee()).Pkg.Path() == Mod {
+						if len(callsTo(cc.StaticCallee(), target)) > 0 {
+							stop[b] = true
+						}
+					}
+				}
+			}
+			key := "a successful Prepare has passed " + what
+			if len(stop) == 0 {
+				r.Fail(key, p.Pos(a.prepare.Pos()), "Prepare never calls "+what)
+				continue
+			}
+			bad := token.NoPos
+			seen := map[*ssa.BasicBlock]bool{}
+			var walk func(b *ssa.BasicBlock)
+			walk = func(b *ssa.BasicBlock) {
+				if seen[b] || stop[b] || bad.IsValid() {
+					return
+				}
+				seen[b] = true
+				if ret, ok := terminator(b).(*ssa.Return); ok {
+					if isSuccessReturn(ret) {
+						bad = ret.Pos()
+					}
+					return
+				}
+				for _, sc := range b.Succs {
+					walk(sc)
+				}
+			}
+			walk(a.prepare.Blocks[0])
+			if bad.IsValid() {
+				r.Fail(key, p.Pos(bad), "Prepare can return without an error here without having gone through "+what+": the program that runs afterwards is one made by an earlier Prepare — with the flags of that call (Prepare() after Prepare(NoOptimize) stays unoptimized), and with the script as it was then")
+			} else {
+				r.OkNT(key, p.Pos(a.prepare.Pos()), "every path to a nil error passes the call")
+			}
+		}
+	}
 	// compile outputs: Eval fields that functions reachable from compile grow
 	// (store of an append result, or map insert through the field).
 	reach := p.Reachable(a.compile)
